@@ -418,7 +418,12 @@ class WorldFlow(Flow):
     FACT_PATTERNS = (r"len\(paths\)", r"get_solution\(", r"edges_to_ignore", r"self\.k\b")
 
     def branch_fact(self, test, pol, state):
-        """Record the outcome of an otherwise uninterpreted test as a fact '?<test>' -> {'True'|'False'}."""
+        """Record the outcome of an otherwise uninterpreted test as a fact '?<test>' -> {'True'|'False'}.  Negative comparison
+        operators are recorded as the positive test with the opposite outcome (`a != b` false  ==  `a == b` true)."""
+        if isinstance(test, ast.Compare) and len(test.ops) == 1 and isinstance(test.ops[0], (ast.NotEq, ast.NotIn, ast.IsNot)):
+            pos = {ast.NotEq: ast.Eq, ast.NotIn: ast.In, ast.IsNot: ast.Is}[type(test.ops[0])]
+            test = ast.Compare(left=test.left, ops=[pos()], comparators=test.comparators)
+            pol = not pol
         txt = norm(test)
         if not any(re.search(p, txt) for p in self.FACT_PATTERNS):
             return state
